@@ -13,6 +13,9 @@ import Hcl.Spec.DumpFormat
 import Hcl.Model.Cli
 import Hcl.Model.Lexer
 import Hcl.Model.Parser
+import Hcl.Model.Io
+import Hcl.Spec.Locate
+import Hcl.Generated
 
 /-! Line-protocol driver: one request S-expression per input line, one answer line per request.
     Answer format: `M <model result> ;; S <spec result>`. -/
@@ -429,6 +432,63 @@ def handleParse (fields : List SExp) : String :=
   | some x => "M " ++ showPEx x ++ " ;; S -"
   | none => "M no-parse ;; S -"
 
+def hexOfBytes (b : Bytes) : String :=
+  String.join (b.map fun x => toHexPad 2 x)
+
+def handleRegion (fields : List SExp) : String :=
+  let nats (k : String) : List Nat := (field fields k).filterMap (·.nat?)
+  let pre := nats "pre"
+  let user := nats "user"
+  let name := nats "name"
+  let start := (nats "start").headD 0
+  let end_ := (nats "end").headD 0
+  let fc := Io.newFromData pre user name
+  let total := pre.length + user.length
+  let clamp (x : Nat) := min x total
+  let model := match Io.showRegion fc start end_, Io.lineNumberAndBounds fc (clamp start), Io.range fc (clamp start) (clamp end_) with
+    | .ok shown, .ok (a, b, c), .ok r => s!"ok {hexOfBytes shown} lnb={a}:{b}:{c} range={hexOfBytes r}"
+    | _, _, _ => "PANIC"
+  -- the specification speaks about spans inside the user's text
+  let spec := if pre.length ≤ start ∧ start ≤ end_ ∧ end_ ≤ total ∧ (pre = [] ∨ pre.getLast? = some 10) then
+      match Spec.region name user (start - pre.length) (end_ - pre.length) with
+      | some r => hexOfBytes r
+      | none => "unspecified"
+    else "unspecified"
+  "M " ++ model ++ " ;; S " ++ spec
+
+def handleDiag (fields : List SExp) : String :=
+  let nats (k : String) : List Nat := (field fields k).filterMap (·.nat?)
+  let pre : Bytes := Generated.preambleBytes
+  let user := nats "user"
+  let name := nats "name"
+  let spans : List (Nat × Nat) := (field fields "spans").filterMap fun e =>
+    match e with
+    | .list [a, b] => match a.nat?, b.nat? with
+      | some x, some y => some (x, y)
+      | _, _ => none
+    | _ => none
+  let shown : List String := (field fields "shown").filterMap (·.atom?)
+  let planted := nats "planted"
+  let fc := Io.newFromData pre user name
+  if (nats "prelen").headD 0 ≠ pre.length then "M preamble-length-differs ;; S -" else
+  -- the regions the model renders for the spans the error carries
+  let rendered : List String := spans.filterMap fun (a, b) =>
+    match Io.showRegion fc a b with
+    | .ok r => some (hexOfBytes r)
+    | .error _ => none
+  let reproduced := (shown.filter fun r => rendered.contains r).length
+  let model := if shown.isEmpty && spans.isEmpty then "-" else s!"err errors=1 shown={reproduced}"
+  -- specification: the planted span is shown as the specification renders it, and nothing is attributed to the preamble
+  let builtinHex := hexOfBytes (Yo.str "-> <builtin>")
+  let mentionsBuiltin := shown.any fun r => (r.splitOn builtinHex).length > 1
+  let expected := match planted with
+    | [s, e] => (Spec.region name user (s - 0) (e - 0)).map hexOfBytes
+    | _ => none
+  let plantedShown := match expected with
+    | some r => shown.contains r
+    | none => false
+  s!"M {model} ;; S planted={if plantedShown then 1 else 0} builtin={if mentionsBuiltin then 1 else 0}"
+
 def handleLex (fields : List SExp) : String :=
   let cls := lexCls (field fields "cls")
   let text : List Char := (field fields "text").filterMap fun e => e.nat?.map Char.ofNat
@@ -448,6 +508,8 @@ def handle (line : String) : String :=
     | some ("table", fields) => handleTable fields
     | some ("cli", fields) => handleCli fields
     | some ("lex", fields) => handleLex fields
+    | some ("region", fields) => handleRegion fields
+    | some ("diag", fields) => handleDiag fields
     | some ("parse", fields) => handleParse fields
     | some ("trace", args) => handleTrace args
     | some (t, _) => s!"bad-request unknown-tag {t}"
